@@ -4,7 +4,7 @@
 cd "$(dirname "$0")/.."
 prop=$1; tier=${2:-quick}
 rm -rf replays
-VERIF_SURVEY=1 ./bin/verif check -prop $prop -tier $tier > /tmp/survey.$$.out 2>&1
+./run build; VERIF_SURVEY=1 ./bin/verif check -prop $prop -tier $tier > /tmp/survey.$$.out 2>&1
 tail -1 /tmp/survey.$$.out; rm -f /tmp/survey.$$.out
 python3 - <<'PY'
 import json,glob
